@@ -476,6 +476,157 @@ func (c *c15Hist) runOp(cut bool) {
 	}
 }
 
+// execOp runs one command through `run` with the crash point k (-1: none), then records events,
+// state and check like runOp does. m = number of mutations measured beforehand (0 = unknown).
+func (c *c15Hist) execOp(cmd, variant string, k, m int, run func() CmdResult) CmdResult {
+	h := c.h
+	c.opn++
+	n := c.opn
+	c.rec.Reset()
+	if k >= 0 {
+		c.rec.CrashAfter = k
+	}
+	r := run()
+	if k >= 0 && !c.rec.Crashed {
+		k = -1
+	}
+	if k >= 0 {
+		h.Rec("op", Itoa(n), cmd, variant, "cut", Itoa(k), Itoa(m), Itoa(r.Exit), B(r.Panic != ""))
+	} else {
+		h.Rec("op", Itoa(n), cmd, variant, "full", Itoa(c.rec.Mutations()), Itoa(m), Itoa(r.Exit), B(r.Panic != ""))
+	}
+	c.emitEvents(n)
+	c.rec.Reset()
+	c.removeLocks()
+	c.emitState(n)
+	c.emitCheck(n)
+	return r
+}
+
+// c15OnBackend wraps an existing backend state for one more command.
+func c15OnBackend(h *H, be *mem.MemoryBackend) *c15Hist {
+	c := &c15Hist{h: h, be: be, pw: "geheim", version: 2}
+	c.rec = NewRecBackend(be)
+	c.cli = NewCLI(c.rec)
+	return c
+}
+
+func c15Write(dir, name string, data []byte) {
+	p := filepath.Join(dir, name)
+	_ = os.MkdirAll(filepath.Dir(p), 0o755)
+	_ = os.WriteFile(p, data, 0o644)
+}
+
+// c15SweepPrune: directed histories for the index-rewrite phase of prune. A repository is
+// prepared whose data pack is only partly used after a forget (so prune has to repack it), then
+// `prune --max-unused 0` is cut after EVERY number of mutating backend operations, each time on a
+// fresh copy of the prepared repository (fresh random file ids, hence fresh index load orders),
+// followed by `check --read-data`. One case per cut: the prepared state is record group 0.
+func c15SweepPrune(h *H) {
+	n := h.N(8, 96)
+	for i := 0; i < n; i++ {
+		c := c15NewHist(h)
+		c.version = 2
+		c.init()
+		nfiles := 3 + h.Intn(3)
+		for j := 0; j < nfiles; j++ {
+			c15Write(c.src, fmt.Sprintf("f%d", j), h.Bytes(500+h.Intn(4000)))
+		}
+		c15Write(c.src, "sub/g", h.Bytes(2000))
+		c.cli.MustRun("backup", c.src)
+		first := c.snapshotIDs()
+		// drop one file, change another, add one: the first data pack stays partly used
+		_ = os.Remove(filepath.Join(c.src, "f0"))
+		c15Write(c.src, "f1", h.Bytes(700))
+		c15Write(c.src, "new", h.Bytes(1500))
+		c.cli.MustRun("backup", c.src)
+		if h.Bool() {
+			c15Write(c.src, "sub/g2", h.Bytes(900))
+			c.cli.MustRun("backup", c.src)
+		}
+		variant := "by-id"
+		if h.Bool() {
+			c.cli.MustRun("forget", first[0])
+		} else {
+			c.cli.MustRun("forget", "--keep-last", "1")
+			variant = "keep-last"
+		}
+		c.removeLocks()
+		base := DumpBackend(c.be)
+		args := []string{"prune", "--max-unused", "0"}
+		if h.Intn(3) == 0 {
+			args = []string{"prune", "--max-unused", "0", "--repack-uncompressed"}
+		}
+		// number of mutations of the uncut command
+		crec := NewRecBackend(LoadBackend(base))
+		_ = NewCLI(crec).Run(args...)
+		m := crec.Mutations()
+		for k := 0; k < m; k++ {
+			d := c15OnBackend(h, LoadBackend(base))
+			h.Case("sweep")
+			h.Rec("hinit", "2")
+			h.Rec("sweep", "prune", variant)
+			d.emitState(0)
+			d.execOp("prune", "sweep", k, m, func() CmdResult { return d.cli.Run(args...) })
+			// a later complete prune must bring the repository to a clean state again
+			if h.Intn(4) == 0 {
+				d.execOp("prune", "after-cut", -1, 0, func() CmdResult { return d.cli.Run(args...) })
+			}
+			h.End()
+		}
+		_ = os.RemoveAll(c.dir)
+	}
+}
+
+// c15SweepCopy: directed two-repository histories: `copy` into an empty destination cut after
+// every number of mutating operations on the destination, then `repair index`, a resumed `copy`
+// and (sometimes) a prune on the destination; check --read-data on the destination after each.
+func c15SweepCopy(h *H) {
+	n := h.N(4, 48)
+	for i := 0; i < n; i++ {
+		src := c15NewHist(h)
+		src.version = 2
+		src.init()
+		for j := 0; j < 3+h.Intn(3); j++ {
+			c15Write(src.src, fmt.Sprintf("f%d", j), h.Bytes(300+h.Intn(5000)))
+		}
+		c15Write(src.src, "dir/x", h.Bytes(1200))
+		src.cli.MustRun("backup", src.src)
+		if h.Bool() {
+			c15Write(src.src, "dir/y", h.Bytes(800))
+			src.cli.MustRun("backup", src.src)
+		}
+		src.removeLocks()
+		copyOn := func(d *c15Hist) CmdResult {
+			c2 := &CLI2{Be: d.rec, Be2: src.be, Password: "geheim", Password2: "geheim"}
+			return c2.Run("copy", "--from-repo", "mem2:r")
+		}
+		// mutations of an uncut copy into a fresh destination
+		probe := c15OnBackend(h, mem.New())
+		probe.cli.MustRun("init")
+		probe.removeLocks()
+		dstBase := DumpBackend(probe.be)
+		probe.rec.Reset()
+		_ = copyOn(probe)
+		m := probe.rec.Mutations()
+		for k := 0; k < m; k++ {
+			d := c15OnBackend(h, LoadBackend(dstBase))
+			h.Case("hist")
+			h.Rec("hinit", "2")
+			d.execOp("copy", "sweep", k, m, func() CmdResult { return copyOn(d) })
+			if h.Intn(3) > 0 {
+				d.execOp("repairindex", "plain", -1, 0, func() CmdResult { return d.cli.Run("repair", "index") })
+			}
+			d.execOp("copy", "resumed", -1, 0, func() CmdResult { return copyOn(d) })
+			if h.Intn(3) == 0 {
+				d.execOp("prune", "max-unused0", -1, 0, func() CmdResult { return d.cli.Run("prune", "--max-unused", "0") })
+			}
+			h.End()
+		}
+		_ = os.RemoveAll(src.dir)
+	}
+}
+
 func c15NewHist(h *H) *c15Hist {
 	c := &c15Hist{h: h, be: mem.New(), pw: "geheim", version: 2}
 	c.rec = NewRecBackend(c.be)
@@ -496,7 +647,9 @@ func (c *c15Hist) init() {
 }
 
 func streamC15(h *H) {
-	nh := h.N(24, 240)
+	c15SweepPrune(h)
+	c15SweepCopy(h)
+	nh := h.N(16, 240)
 	maxOps := 8
 	if h.Thorough() {
 		maxOps = 16
